@@ -35,6 +35,8 @@ FromRaw     == pc = "start" /\ typ # "rsa" /\ Step("raw", Desc(typ, SchemeOf(typ
 FromRawH    == pc = "start" /\ typ = "ed25519" /\ Step("raw_halgs", Desc(typ, SchemeOf(typ), "default", mat)) /\ pc' = "have"
 FromRawE    == pc = "start" /\ typ # "rsa" /\ Step("raw_empty", Desc(typ, SchemeOf(typ), "empty", mat)) /\ pc' = "have"
 FromSpki    == pc = "start" /\ Step("spki", Desc(typ, SchemeOf(typ), "default", mat)) /\ pc' = "have"
+\* (the concretisation offers the armour in several spellings - with / without final newline, CRLF line ends,
+\* surrounding blank lines - which must all give this same key)
 FromPem     == pc = "start" /\ Step("pem", Desc(typ, SchemeOf(typ), "default", mat)) /\ pc' = "have"
 \* a freshly generated key pair (PrivateKey::new -> from_pkcs8): like FromPrivate, for new material
 FromGenerated == pc = "start" /\ typ # "rsa" /\ Step("generated", Desc(typ, SchemeOf(typ), "default", mat)) /\ pc' = "have"
